@@ -14,6 +14,14 @@ theorem holds_dial_reaches_accepted_listener (s : State) (h : Reachable Facts.gr
     s.listeners a = some ⟨d.id⟩ :=
   dial_reaches_accepted_listener _ facts_good s h g d a hd hpc
 
+/-- **about five seconds**: a waiting `Dial` is due at most 5000 ms from now, and a due timer's step is enabled -/
+theorem holds_dial_due_within_five_seconds (s : GrpcBroker.State) (h : GrpcBroker.Reachable Facts.grpcBroker s)
+    (g : Nat) (d : GrpcBroker.Dial) (hg : s.dials g = some d) (hw : d.pc = .wait) :
+    d.deadline ≤ s.now + 5000 ∧ (d.deadline ≤ s.now → (GrpcBroker.step Facts.grpcBroker s (.dialTimeout g)).isSome) := by
+  have := (dial_due_within_window Facts.grpcBroker s h).1 g d hg hw
+  rw [windows_five_seconds.1] at this
+  exact this
+
 theorem dial_facts_good : Facts.grpcDial.Good := by decide
 
 theorem holds_dial_reaches_own_id (id other : Nat) (b : Bool) : GrpcBroker.dialReaches Facts.grpcDial id other b = id :=
